@@ -613,3 +613,27 @@ def same_value(ctx: Ctx, fn: FuncInfo, e1: Optional[ast.AST], n1: int, e2: Optio
     if r is None:
         return False
     return ctx.rd(fn).same_binding(n1, n2, r)
+
+
+
+# Calls that cannot fail in a running interpreter (no arguments, no I/O).  A binding whose right-hand side is one of these
+# (or a constant / plain name) cannot be the origin of an exception.
+NON_RAISING_CALLS = {'multiprocessing.current_process', 'threading.current_thread', 'os.getpid', 'time.time', 'time.monotonic',
+                     'datetime.datetime.now', 'uuid.uuid4'}
+
+
+def cannot_raise(ctx: 'Ctx', fn: FuncInfo, st: ast.AST) -> bool:
+    """A simple binding `name = <constant | name | argument-less call from NON_RAISING_CALLS>`."""
+    if not isinstance(st, (ast.Assign, ast.AnnAssign)) or getattr(st, 'value', None) is None:
+        return isinstance(st, ast.Pass) or (isinstance(st, ast.AnnAssign) and st.value is None)
+    targets = st.targets if isinstance(st, ast.Assign) else [st.target]
+    if not all(isinstance(x, ast.Name) for x in targets):
+        return False
+    v = st.value
+    if isinstance(v, (ast.Constant, ast.Name)):
+        return True
+    if isinstance(v, ast.Call) and not v.args and not v.keywords:
+        d = dotted(v.func)
+        r = ctx.P.resolve_dotted(fn.module, d) if d else None
+        return r in NON_RAISING_CALLS
+    return False
